@@ -37,14 +37,24 @@ def build_impl(outdir, name='impl', flags=(), cc='gcc', opt='-O2', src='impl_dri
 class BuildError(Exception): pass
 
 # ---------------------------------------------------------------- model runners
-def model_sources_digest():
+def _deps(mod, seen):
+    """transitive closure of Require'd files of the development (Spec.X, Model.X, ...)"""
+    if mod in seen: return
+    f = os.path.join(COQ, mod.replace('.', '/') + '.v')
+    if not os.path.exists(f): return
+    seen[mod] = open(f, 'rb').read()
+    for line in seen[mod].decode('utf-8', 'replace').split('\n'):
+        if 'Require' in line:
+            for m in re.findall(r'\b((?:Spec|Model|Extract|Proofs|Kernel|Gen)\.[A-Za-z0-9_]+)', line):
+                _deps(m, seen)
+
+def model_sources_digest(api_module='ApiCore', kind='fast'):
+    seen = {}
+    _deps('Model.' + api_module, seen); _deps('Extract.Extract' + kind.capitalize(), seen)
     h = hashlib.sha256()
-    for d in ('Spec', 'Model', 'Extract'):
-        for f in sorted(os.listdir(os.path.join(COQ, d))):
-            if f.endswith('.v'): h.update(open(os.path.join(COQ, d, f), 'rb').read())
-    for f in ('driver_fast.ml', 'driver_slow.ml'):
-        p = os.path.join(ROOT, 'harness', f)
-        if os.path.exists(p): h.update(open(p, 'rb').read())
+    for k in sorted(seen): h.update(k.encode()); h.update(seen[k])
+    p = os.path.join(ROOT, 'harness', 'driver_%s.ml' % kind)
+    if os.path.exists(p): h.update(open(p, 'rb').read())
     return h.hexdigest()
 
 def coq_make(targets=(), timeout=3000):
@@ -68,7 +78,7 @@ def ensure_model(group, api_module=None, dispatch=None, slow=False):
     d = os.path.join(BUILD, 'model_%s_%s' % (group, kind))
     exe = os.path.join(d, 'model')
     stamp = os.path.join(d, 'stamp')
-    dig = model_sources_digest()
+    dig = model_sources_digest(api_module, kind)
     with Lock('model_' + group + kind):
         if os.path.exists(exe) and os.path.exists(stamp) and open(stamp).read() == dig:
             return exe
